@@ -48,7 +48,7 @@ bool InstrumentMetaDataValidator::ValidateName(nostd::string_view name) const
     return false;
   }
   // first char should be alpha
-  if (!isalpha(name[0]))
+  if (name.empty() || !isalpha(name[0]))
   {
     return false;
   }
